@@ -376,3 +376,63 @@ def list_built_over(expr, fn):
 
 def returns_of(fn):
     return [n for n in A.walk_local(fn) if isinstance(n, ast.Return)]
+
+
+# ------------------------------------------------------------------ tiny symbolic evaluation of straight-line code
+def run_under(fn, decide):
+    """the straight-line statement sequence `fn` executes when every `if` test is decided by `decide(test)` ->
+    True / False (None = cannot decide: the result is None). Loops / try / with stop the evaluation (None).
+    Returns (statements, returned expression or None)."""
+    out = []
+
+    def run(stmts):
+        for st in stmts:
+            if isinstance(st, ast.If):
+                r = decide(st.test)
+                if r is None:
+                    return 'stop'
+                k = run(st.body if r else st.orelse)
+                if k:
+                    return k
+            elif isinstance(st, ast.Return):
+                out.append(st)
+                return 'return'
+            elif isinstance(st, ast.Raise):
+                out.append(st)
+                return 'raise'
+            elif isinstance(st, (ast.Assign, ast.AugAssign, ast.AnnAssign, ast.Expr, ast.Pass, ast.Assert,
+                                 ast.Import, ast.ImportFrom)):
+                out.append(st)
+            else:
+                return 'stop'
+        return None
+    body = [s for s in fn.body if not (isinstance(s, ast.Expr) and isinstance(s.value, ast.Constant))]
+    k = run(body)
+    if k == 'stop':
+        return None, None
+    return out, (out[-1] if out and isinstance(out[-1], ast.Return) else None)
+
+
+def symbolic_value(stmts, expr):
+    """value of `expr` after the straight-line `stmts` (plain `name = e` / `name op= e` assignments are substituted in
+    order; anything else that binds a name makes that name opaque)"""
+    env = {}
+
+    class Sub(ast.NodeTransformer):
+        def visit_Name(self, nd):
+            if isinstance(nd.ctx, ast.Load) and nd.id in env and env[nd.id] is not None:
+                return A.clone(env[nd.id])
+            return nd
+    for st in stmts:
+        if isinstance(st, ast.Assign) and len(st.targets) == 1 and isinstance(st.targets[0], ast.Name):
+            env[st.targets[0].id] = Sub().visit(A.clone(st.value))
+        elif isinstance(st, ast.AugAssign) and isinstance(st.target, ast.Name):
+            cur = env.get(st.target.id) or ast.Name(id=st.target.id, ctx=ast.Load())
+            env[st.target.id] = ast.BinOp(left=A.clone(cur), op=st.op, right=Sub().visit(A.clone(st.value)))
+        elif isinstance(st, (ast.Assign, ast.AnnAssign)):
+            for t in (st.targets if isinstance(st, ast.Assign) else [st.target]):
+                for nm in A.name_targets(t):
+                    env[nm] = None
+    new = Sub().visit(A.clone(expr))
+    ast.fix_missing_locations(new)
+    return new
